@@ -161,11 +161,14 @@ pub struct SrvCfg {
 	/// the id provider hands out the same subscription id every time (ids may be reused once a subscription has ended);
 	/// handler log tags then carry `#<script index>` to tell the instances apart
 	pub const_ids: bool,
+	/// every connection's service is made with `builder.clone().set_http_middleware(..)` (an empty layer stack), the way
+	/// an application adds per-connection HTTP middleware; the connection guard must stay shared
+	pub per_conn_http_mw: bool,
 }
 
 impl Default for SrvCfg {
 	fn default() -> Self {
-		SrvCfg { conns: vec![], scripts: vec![], stop: false, stop_twice: false, drop_handles: false, max_subs: 16, max_conns: 16, buffer: 16, slow_steps: 1, connect_points: false, tcp: false, max_resp: 0, wide_ids: 0, ping_ms: None, low_ws: false, const_ids: false }
+		SrvCfg { conns: vec![], scripts: vec![], stop: false, stop_twice: false, drop_handles: false, max_subs: 16, max_conns: 16, buffer: 16, slow_steps: 1, connect_points: false, tcp: false, max_resp: 0, wide_ids: 0, ping_ms: None, low_ws: false, const_ids: false, per_conn_http_mw: false }
 	}
 }
 
@@ -469,7 +472,11 @@ pub fn setup(cfg: &SrvCfg) -> SrvState {
 				done.lock().unwrap()[c] = true;
 			});
 		} else {
-			let mut svc = builder.clone().build(methods.clone(), stop.clone());
+			let mut svc = if cfg.per_conn_http_mw {
+				builder.clone().set_http_middleware(tower::ServiceBuilder::new()).build(methods.clone(), stop.clone())
+			} else {
+				builder.clone().build(methods.clone(), stop.clone())
+			};
 			// the server's own signal that a WebSocket session is over
 			let session_closed = svc.on_session_closed();
 			tokio::spawn(async move {
